@@ -32,6 +32,7 @@ Definition get_ok (s' : st) (e : event) : Prop :=
   | EvDT x =>
       if is_nil (sdt s') then x = lit_generic /\ (closed s' || canc s') = true
       else x = sdt s'
+  | EvPanic => False
   | _ => True
   end.
 
@@ -147,7 +148,7 @@ Proof.
     destruct G as (W' & D & Gt & SN). cbn [dt_ok]. fold (dt_next (sdt (sh y)) (os_ev o)).
     rewrite <- D, SN. cbn [sn_dt sn_deps sn_canc snap_of]. rewrite bytes_eqb_refl. cbn [andb].
     rewrite (IH _ _ _ E' W'), andb_true_r.
-    unfold get_ok in Gt. destruct (os_ev o); try reflexivity.
+    unfold get_ok in Gt. destruct (os_ev o); try reflexivity; [|contradiction].
     destruct (is_nil (sdt (sh y'))).
     + destruct Gt as [Gx Gc]. subst. rewrite bytes_eqb_refl. cbn [andb]. exact Gc.
     + subst. apply bytes_eqb_refl.
